@@ -12,6 +12,13 @@ def fuzz(name, target, fuzztime, workers=8, timeout=None):
     return {"name": name, "kind": "fuzz", "target": target, "thorough": t}
 
 PROPS = {
+    "C12": {
+        "level": "exploration",
+        "jobs": [
+            rapid("issuance", "^TestC12$", {"checks": 10, "steps": 35, "shards": 8, "timeout": 900, "shrinktime": "30s"},
+                  {"checks": 150, "steps": 60, "shards": 14, "timeout": 5000, "shrinktime": "120s"}),
+        ],
+    },
     "C10": {
         "level": "exploration",
         "jobs": [
